@@ -180,7 +180,7 @@ Init == /\ live = {}
    of the successor state (all other primed variables are determined by then) *)
 Log(op) == /\ (OpBudget = 0 \/ Cardinality({j \in DOMAIN hist : hist[j].op = op.op}) < OpBudget)
            /\ hist' = Append(hist, op)
-           /\ trail' = Append(trail, Obs(live', abs', disk', res'))
+           /\ trail' = IF Emit THEN Append(trail, Obs(live', abs', disk', res')) ELSE trail   \* only kept when emitting
 CanStep == Len(hist) < Depth
 Bind(s, P, d) == /\ live' = live \cup {s}
                  /\ abs' = [abs EXCEPT ![s] = P]
@@ -347,6 +347,10 @@ UniverseLaws == (hist = <<>>) =>
    would never be the one on the emitted history. *)
 HistView == <<live, abs, conc, disk, res, Len(hist)>>
 OpView == <<live, abs, conc, disk, res, Len(hist), IF hist = <<>> THEN <<>> ELSE hist[Len(hist)]>>
+(* TransView: one history per distinct TRANSITION (observation of the state before, operation, state after): OpView
+   identifies a step by its result, so an operation whose effect is absorbed (saving over an identical file, loading
+   into a name that already holds that value) is only emitted from the first state it was seen in. *)
+TransView == <<OpView, IF hist = <<>> THEN <<>> ELSE trail[Len(trail) - 1]>>
 EmitInv == (Emit /\ hist # <<>>) => PrintT(<<"CASE", ToJson([hist |-> hist, trail |-> trail])>>)
 EmitFull == (Emit /\ Len(hist) = Depth) => PrintT(<<"CASE", ToJson([hist |-> hist, trail |-> trail])>>)
 =============================================================================
